@@ -122,6 +122,12 @@ fn is_rejection(p: &PanicInfo) -> bool {
 
 /// Apply a plan to a module through the module-level API paths. Returns per-injection status + encoded bytes.
 pub fn apply_module(base: &[u8], plan: &[Inj]) -> Result<(Vec<Applied>, Result<Vec<u8>, PanicInfo>, Vec<String>), String> {
+    let (status, mut encs, logs) = apply_module_multi(base, plan, 1)?;
+    Ok((status, encs.remove(0), logs))
+}
+
+/// Same, but `encode()` is called up to `n` times on the same module (C05); stops at the first panic.
+pub fn apply_module_multi(base: &[u8], plan: &[Inj], n: usize) -> Result<(Vec<Applied>, Vec<Result<Vec<u8>, PanicInfo>>, Vec<String>), String> {
     let mut m = match catch(|| wirm::Module::parse(base, true)) {
         Ok(Ok(m)) => m,
         Ok(Err(e)) => return Err(format!("parse: {}", e)),
@@ -138,9 +144,42 @@ pub fn apply_module(base: &[u8], plan: &[Inj]) -> Result<(Vec<Applied>, Result<V
         }
     }
     let _ = take_logs();
-    let enc = catch(|| m.encode());
-    let logs: Vec<String> = take_logs().into_iter().map(|(_, s)| s).collect();
-    Ok((status, enc, logs))
+    let mut encs = vec![];
+    let mut logs: Vec<String> = vec![];
+    // C05 also observes emit_wasm: in 1 of 8 bases the second encoding goes through a file
+    let via_file = crate::rng::fnv(base) % 8 == 0;
+    for k in 0..n.max(1) {
+        let enc = if k == 1 && via_file {
+            let dir = format!("{}/out/run", std::env::var("VERIF_DIR").unwrap_or_else(|_| "/verif".into()));
+            let _ = std::fs::create_dir_all(&dir);
+            let path = format!("{}/emit-{}.wasm", dir, std::process::id());
+            let r = catch(|| m.emit_wasm(&path).map(|_| std::fs::read(&path).unwrap_or_default()).unwrap_or_default());
+            let _ = std::fs::remove_file(&path);
+            r
+        } else {
+            catch(|| m.encode())
+        };
+        let stop = enc.is_err();
+        encs.push(enc);
+        let l: Vec<String> = take_logs().into_iter().map(|(_, s)| s).collect();
+        if k == 0 {
+            logs = l;
+        }
+        if stop {
+            break;
+        }
+    }
+    Ok((status, encs, logs))
+}
+
+/// One injection on a live module; the documented rejection ("Cannot apply ...") counts as Ok.
+pub fn apply_injection<'a>(m: &mut wirm::Module<'a>, inj: &Inj) -> Result<(), PanicInfo> {
+    let ops = probe_ops_for(inj);
+    match catch(|| apply_one_module(m, inj, ops)) {
+        Ok(()) => Ok(()),
+        Err(p) if is_rejection(&p) => Ok(()),
+        Err(p) => Err(p),
+    }
 }
 
 fn mode_path(i: &Inj) -> String {
@@ -620,157 +659,156 @@ impl Prop for Lower {
         }
     }
     fn run_case(&self, seed: u64, idx: u64, want_sample: bool) -> CaseOut {
-        let mut out = CaseOut::default();
         let mut rng = Rng::for_case(seed, self.id, idx);
-        let g = match pick_base(&mut rng, self.id != "C15") {
-            Ok(g) => g,
-            Err(_) => {
-                out.inconclusive = Some("generator reject".into());
-                return out;
-            }
-        };
-        let raw_in = match sym::decode(&g.bytes) {
-            Ok(r) => r,
+        let (g, plan, via_component) = match gen_plan(self.id, &mut rng) {
+            Ok(x) => x,
             Err(e) => {
-                out.inconclusive = Some(format!("decode: {}", e));
+                let mut out = CaseOut::default();
+                out.inconclusive = Some(e);
                 return out;
             }
         };
-        let nimp = raw_in.n_imp_funcs;
-        let via_component = rng.chance(1, 4);
-        let mut plan: Vec<Inj> = vec![];
-        let mut uid = 1u32;
-        // an `if` removed without replacement leaves its condition on the stack: valid lowering, invalid module
-        let mut empty_if = false;
-        let paths = [Path::Iter, Path::IterInjectAt, Path::Modifier, Path::ModifierInjectAt];
-        match self.id {
-            "C15" => {
-                let n = rng.range(1, 10);
-                for _ in 0..n {
-                    // bias towards re-using a site
-                    let (func, at) = if !plan.is_empty() && rng.chance(1, 3) {
-                        let p = rng.pick(&plan);
-                        (p.func, p.at)
-                    } else {
-                        let f = rng.below(raw_in.funcs.len());
-                        (nimp + f as u32, rng.below(raw_in.funcs[f].ops.len()))
-                    };
-                    let mut mode = *rng.pick(&[Mode::Before, Mode::After, Mode::Alt, Mode::EmptyAlt, Mode::Before, Mode::After]);
-                    // replacing / removing a structural keyword yields a body no decoder accepts: only before/after there
-                    let opname = raw_in.funcs[(func - nimp) as usize].ops[at].name.as_str();
-                    if matches!(mode, Mode::Alt | Mode::EmptyAlt) && matches!(opname, "Block" | "Loop" | "If" | "Else" | "End" | "TryTable" | "Try") {
-                        mode = Mode::Before;
-                    }
-                    let mut path = *rng.pick(&paths);
-                    if mode == Mode::EmptyAlt && matches!(path, Path::IterInjectAt | Path::ModifierInjectAt) {
-                        path = Path::Iter;
-                    }
-                    plan.push(Inj { func, at, mode, path, uid, n_ops: rng.range(1, 2), leading_drop: false, probe: Probe::Marker });
-                    uid += 1;
-                }
-            }
-            "C21" => {
-                // choose non-overlapping empty-typed constructs
-                for (f, func) in raw_in.funcs.iter().enumerate() {
-                    let st = structure(&func.ops);
-                    let mut taken: Vec<(usize, usize)> = vec![];
-                    let mut cands = st.blockish.clone();
-                    rng.shuffle(&mut cands);
-                    for c in cands.into_iter().take(3) {
-                        let is_else = func.ops[c].name == "Else";
-                        let (lo, hi) = if is_else {
-                            let open = st.parent[c].unwrap();
-                            if !st.empty_type.get(&open).copied().unwrap_or(false) {
-                                continue;
-                            }
-                            (c, *st.else_end.get(&c).unwrap_or(&c))
-                        } else {
-                            if !st.empty_type.get(&c).copied().unwrap_or(false) {
-                                continue;
-                            }
-                            (c, *st.end_of.get(&c).unwrap_or(&c))
-                        };
-                        // also keep clear of the enclosing construct's keywords when an enclosing one is replaced
-                        if taken.iter().any(|(a, b)| !(hi < *a || lo > *b)) {
-                            continue;
-                        }
-                        // replacing an `if` or its else while the other is replaced = overlap
-                        if rng.chance(1, 2) {
-                            taken.push((lo, hi));
-                            let mode = if rng.chance(1, 3) { Mode::EmptyBlockAlt } else { Mode::BlockAlt };
-                            let mut path = *rng.pick(&paths);
-                            if mode == Mode::EmptyBlockAlt && matches!(path, Path::IterInjectAt | Path::ModifierInjectAt) {
-                                path = Path::Modifier;
-                            }
-                            let is_if = func.ops[c].name == "If";
-                            if is_if && mode == Mode::EmptyBlockAlt {
-                                empty_if = true;
-                            }
-                            plan.push(Inj { func: nimp + f as u32, at: c, mode, path, uid, n_ops: 1, leading_drop: is_if && mode == Mode::BlockAlt, probe: Probe::Marker });
-                            uid += 1;
-                        }
-                    }
-                    // plain injections outside the replaced regions
-                    for _ in 0..rng.below(3) {
-                        let at = rng.below(func.ops.len());
-                        if taken.iter().any(|(a, b)| at >= *a && at <= *b) {
-                            continue;
-                        }
-                        let mode = *rng.pick(&[Mode::Before, Mode::After]);
-                        plan.push(Inj { func: nimp + f as u32, at, mode, path: *rng.pick(&paths), uid, n_ops: 1, leading_drop: false, probe: Probe::Marker });
-                        uid += 1;
-                    }
-                }
-            }
-            _ => {
-                let mut funcs: Vec<usize> = (0..raw_in.funcs.len()).collect();
-                rng.shuffle(&mut funcs);
-                for f in funcs.into_iter().take(rng.range(1, 3)) {
-                    let func = &raw_in.funcs[f];
-                    let st = structure(&func.ops);
-                    let mode = *rng.pick(&[Mode::SemAfter, Mode::BlockEntry, Mode::BlockExit, Mode::BlockAlt, Mode::EmptyBlockAlt, Mode::FuncEntry, Mode::FuncExit]);
-                    let branchy: Vec<usize> = func
-                        .ops
-                        .iter()
-                        .enumerate()
-                        .filter(|(_, o)| matches!(o.name.as_str(), "Br" | "BrIf" | "BrTable" | "BrOnNull" | "BrOnNonNull"))
-                        .map(|(i, _)| i)
-                        .collect();
-                    let at = match mode {
-                        Mode::FuncEntry | Mode::FuncExit => rng.below(func.ops.len()),
-                        Mode::SemAfter => {
-                            let mut c = st.blockish.clone();
-                            c.extend(branchy.iter().cloned());
-                            if c.is_empty() || rng.chance(1, 10) {
-                                rng.below(func.ops.len())
-                            } else {
-                                *rng.pick(&c)
-                            }
-                        }
-                        _ => {
-                            if st.blockish.is_empty() || rng.chance(1, 10) {
-                                rng.below(func.ops.len())
-                            } else {
-                                *rng.pick(&st.blockish)
-                            }
-                        }
-                    };
-                    let mut path = *rng.pick(&paths);
-                    if matches!(mode, Mode::EmptyBlockAlt | Mode::FuncEntry | Mode::FuncExit) && matches!(path, Path::IterInjectAt | Path::ModifierInjectAt) {
-                        path = if rng.bool() { Path::Iter } else { Path::Modifier };
-                    }
-                    plan.push(Inj { func: nimp + f as u32, at, mode, path, uid, n_ops: 1, leading_drop: false, probe: Probe::Marker });
-                    uid += 1;
-                }
-            }
-        }
-        if plan.is_empty() {
-            out.inconclusive = Some("empty plan (no applicable site)".into());
-            return out;
-        }
         let profile = g.profile;
         self.evaluate(&g.bytes, profile, plan, via_component, want_sample, &mut rng)
     }
+}
+
+/// Base module + injection plan of one C15 / C21 / C22 case (also the scenario pool of C04 / C05).
+pub fn gen_plan(id: &str, rng: &mut Rng) -> Result<(gen::GenModule, Vec<Inj>, bool), String> {
+    let g = pick_base(rng, id != "C15").map_err(|_| "generator reject".to_string())?;
+    let raw_in = sym::decode(&g.bytes).map_err(|e| format!("decode: {}", e))?;
+    let nimp = raw_in.n_imp_funcs;
+    let via_component = rng.chance(1, 4);
+    let mut plan: Vec<Inj> = vec![];
+    let mut uid = 1u32;
+    // an `if` removed without replacement leaves its condition on the stack: valid lowering, invalid module
+    let mut empty_if = false;
+    let paths = [Path::Iter, Path::IterInjectAt, Path::Modifier, Path::ModifierInjectAt];
+    match id {
+        "C15" => {
+            let n = rng.range(1, 10);
+            for _ in 0..n {
+                // bias towards re-using a site
+                let (func, at) = if !plan.is_empty() && rng.chance(1, 3) {
+                    let p = rng.pick(&plan);
+                    (p.func, p.at)
+                } else {
+                    let f = rng.below(raw_in.funcs.len());
+                    (nimp + f as u32, rng.below(raw_in.funcs[f].ops.len()))
+                };
+                let mut mode = *rng.pick(&[Mode::Before, Mode::After, Mode::Alt, Mode::EmptyAlt, Mode::Before, Mode::After]);
+                // replacing / removing a structural keyword yields a body no decoder accepts: only before/after there
+                let opname = raw_in.funcs[(func - nimp) as usize].ops[at].name.as_str();
+                if matches!(mode, Mode::Alt | Mode::EmptyAlt) && matches!(opname, "Block" | "Loop" | "If" | "Else" | "End" | "TryTable" | "Try") {
+                    mode = Mode::Before;
+                }
+                let mut path = *rng.pick(&paths);
+                if mode == Mode::EmptyAlt && matches!(path, Path::IterInjectAt | Path::ModifierInjectAt) {
+                    path = Path::Iter;
+                }
+                plan.push(Inj { func, at, mode, path, uid, n_ops: rng.range(1, 2), leading_drop: false, probe: Probe::Marker });
+                uid += 1;
+            }
+        }
+        "C21" => {
+            // choose non-overlapping empty-typed constructs
+            for (f, func) in raw_in.funcs.iter().enumerate() {
+                let st = structure(&func.ops);
+                let mut taken: Vec<(usize, usize)> = vec![];
+                let mut cands = st.blockish.clone();
+                rng.shuffle(&mut cands);
+                for c in cands.into_iter().take(3) {
+                    let is_else = func.ops[c].name == "Else";
+                    let (lo, hi) = if is_else {
+                        let open = st.parent[c].unwrap();
+                        if !st.empty_type.get(&open).copied().unwrap_or(false) {
+                            continue;
+                        }
+                        (c, *st.else_end.get(&c).unwrap_or(&c))
+                    } else {
+                        if !st.empty_type.get(&c).copied().unwrap_or(false) {
+                            continue;
+                        }
+                        (c, *st.end_of.get(&c).unwrap_or(&c))
+                    };
+                    // also keep clear of the enclosing construct's keywords when an enclosing one is replaced
+                    if taken.iter().any(|(a, b)| !(hi < *a || lo > *b)) {
+                        continue;
+                    }
+                    // replacing an `if` or its else while the other is replaced = overlap
+                    if rng.chance(1, 2) {
+                        taken.push((lo, hi));
+                        let mode = if rng.chance(1, 3) { Mode::EmptyBlockAlt } else { Mode::BlockAlt };
+                        let mut path = *rng.pick(&paths);
+                        if mode == Mode::EmptyBlockAlt && matches!(path, Path::IterInjectAt | Path::ModifierInjectAt) {
+                            path = Path::Modifier;
+                        }
+                        let is_if = func.ops[c].name == "If";
+                        if is_if && mode == Mode::EmptyBlockAlt {
+                            empty_if = true;
+                        }
+                        plan.push(Inj { func: nimp + f as u32, at: c, mode, path, uid, n_ops: 1, leading_drop: is_if && mode == Mode::BlockAlt, probe: Probe::Marker });
+                        uid += 1;
+                    }
+                }
+                // plain injections outside the replaced regions
+                for _ in 0..rng.below(3) {
+                    let at = rng.below(func.ops.len());
+                    if taken.iter().any(|(a, b)| at >= *a && at <= *b) {
+                        continue;
+                    }
+                    let mode = *rng.pick(&[Mode::Before, Mode::After]);
+                    plan.push(Inj { func: nimp + f as u32, at, mode, path: *rng.pick(&paths), uid, n_ops: 1, leading_drop: false, probe: Probe::Marker });
+                    uid += 1;
+                }
+            }
+        }
+        _ => {
+            let mut funcs: Vec<usize> = (0..raw_in.funcs.len()).collect();
+            rng.shuffle(&mut funcs);
+            for f in funcs.into_iter().take(rng.range(1, 3)) {
+                let func = &raw_in.funcs[f];
+                let st = structure(&func.ops);
+                let mode = *rng.pick(&[Mode::SemAfter, Mode::BlockEntry, Mode::BlockExit, Mode::BlockAlt, Mode::EmptyBlockAlt, Mode::FuncEntry, Mode::FuncExit]);
+                let branchy: Vec<usize> = func
+                    .ops
+                    .iter()
+                    .enumerate()
+                    .filter(|(_, o)| matches!(o.name.as_str(), "Br" | "BrIf" | "BrTable" | "BrOnNull" | "BrOnNonNull"))
+                    .map(|(i, _)| i)
+                    .collect();
+                let at = match mode {
+                    Mode::FuncEntry | Mode::FuncExit => rng.below(func.ops.len()),
+                    Mode::SemAfter => {
+                        let mut c = st.blockish.clone();
+                        c.extend(branchy.iter().cloned());
+                        if c.is_empty() || rng.chance(1, 10) {
+                            rng.below(func.ops.len())
+                        } else {
+                            *rng.pick(&c)
+                        }
+                    }
+                    _ => {
+                        if st.blockish.is_empty() || rng.chance(1, 10) {
+                            rng.below(func.ops.len())
+                        } else {
+                            *rng.pick(&st.blockish)
+                        }
+                    }
+                };
+                let mut path = *rng.pick(&paths);
+                if matches!(mode, Mode::EmptyBlockAlt | Mode::FuncEntry | Mode::FuncExit) && matches!(path, Path::IterInjectAt | Path::ModifierInjectAt) {
+                    path = if rng.bool() { Path::Iter } else { Path::Modifier };
+                }
+                plan.push(Inj { func: nimp + f as u32, at, mode, path, uid, n_ops: 1, leading_drop: false, probe: Probe::Marker });
+                uid += 1;
+            }
+        }
+    }
+    if plan.is_empty() {
+        return Err("empty plan (no applicable site)".into());
+    }
+    Ok((g, plan, via_component))
 }
 
 fn mode_of(s: &str) -> Option<Mode> {
